@@ -96,6 +96,8 @@ type Project struct {
 	Extra        map[string]string // additional raw files (relative path -> content)
 	ExtraDel     map[string]bool
 	ExtraEntries []string // raw files (keys of Extra) that are entry points too
+	LocalCSS  map[int]bool // modules that import "./button.module.css" (local-css) next to them: the same
+	// file and class names in several directories
 }
 
 type TSConfig struct {
@@ -107,6 +109,9 @@ type TSConfig struct {
 	Version      int
 	Broken       bool
 	Fallback     bool // "paths" lists an override directory (which may not exist) before src
+	Extends      bool // "extends": "./tsconfig.base.json"
+	BasePresent  bool // ... which may not exist (yet)
+	BaseJSX      int  // the base sets jsx (the derived file then does not)
 }
 
 // import styles, weighted: dynamic imports and named imports are the interesting ones
@@ -303,6 +308,10 @@ func GenProject(g G, root string) *Project {
 	}
 	if g.chance(50) {
 		p.TS = &TSConfig{JSX: g.n(4), Paths: true, UseDefine: g.n(3), AlwaysStrict: g.n(3), Target: g.n(3), Version: 1, Fallback: g.n(2) == 1}
+		if g.n(3) == 0 {
+			p.TS.Extends = true // the base file is missing at first in half of the cases
+			p.TS.BasePresent = g.n(2) == 0
+		}
 	}
 	return p
 }
@@ -414,6 +423,14 @@ func (p *Project) RenderModule(m *Module) string {
 	}
 	var used []string
 	var lazyList []string
+	if p.LocalCSS[m.ID] {
+		if cjs {
+			sb.WriteString("const btn = require(\"./button.module.css\");\n")
+		} else {
+			sb.WriteString("import btn from \"./button.module.css\";\n")
+		}
+		used = append(used, "btn.root", "btn.title")
+	}
 	if p.Legacy && m.ID == 0 {
 		if cjs {
 			sb.WriteString("require(\"./legacy.js\");\n")
@@ -632,6 +649,15 @@ func (p *Project) Render() map[string]string {
 	}
 	if p.TS != nil {
 		files["tsconfig.json"] = p.TS.render()
+		if p.TS.Extends && p.TS.BasePresent {
+			files["tsconfig.base.json"] = fmt.Sprintf(`{"compilerOptions": {"jsx": %q}}`, []string{"react", "react-jsx", "preserve"}[p.TS.BaseJSX%3])
+		}
+	}
+	for id := range p.LocalCSS {
+		if id < len(p.Mods) && !p.Mods[id].Deleted {
+			dir := dirOf(p.Mods[id].Path) // (the content depends on the directory only: several modules may share one)
+			files[dir+"/button.module.css"] = fmt.Sprintf(".root { color: #%06x }\n.title { margin: %dpx }\n", fnv64(dir)&0xffffff, len(dir))
+		}
 	}
 	for k, v := range p.Extra {
 		if !p.ExtraDel[k] {
@@ -649,7 +675,11 @@ func (t *TSConfig) render() string {
 		return `{"compilerOptions": {"jsx": "react", ` // truncated
 	}
 	var opts []string
-	switch t.JSX {
+	jsx := t.JSX
+	if t.Extends {
+		jsx = 0
+	}
+	switch jsx {
 	case 1:
 		opts = append(opts, `"jsx": "react"`)
 	case 2:
@@ -680,7 +710,11 @@ func (t *TSConfig) render() string {
 	case 2:
 		opts = append(opts, `"target": "ES2022"`)
 	}
-	return fmt.Sprintf(`{"compilerOptions": {%s}, "x": %d}`, strings.Join(opts, ", "), t.Version)
+	ext := ""
+	if t.Extends {
+		ext = `"extends": "./tsconfig.base.json", `
+	}
+	return fmt.Sprintf(`{%s"compilerOptions": {%s}, "x": %d}`, ext, strings.Join(opts, ", "), t.Version)
 }
 
 // WriteTo renders the project and stores every file on the disk (only files whose
@@ -717,6 +751,12 @@ func (p *Project) Clone() *Project {
 	}
 	c.Entries = append([]int(nil), p.Entries...)
 	c.ExtraEntries = append([]string(nil), p.ExtraEntries...)
+	if p.LocalCSS != nil {
+		c.LocalCSS = map[int]bool{}
+		for k, v := range p.LocalCSS {
+			c.LocalCSS[k] = v
+		}
+	}
 	if p.TS != nil {
 		t := *p.TS
 		c.TS = &t
